@@ -111,29 +111,50 @@ theorem loop_events {b0 : List Nat} {rounds : List Round} {r : Nat} {batch : Lis
       (∀ c r' rd m, Sent new r' c → rounds[r' - r]? = some rd → rd.ans c = .ok m →
         getSlot b0 R.res c = ⟨some m, none⟩) ∧
       (∀ rd rest, rounds = rd :: rest → batch.any (fun c => !locOk rd c) = false →
-        queuedAt new r = groups rd batch) := by
+        queuedAt new r = groups rd batch) ∧
+      (∀ c r' rd, Sent new r' c → rounds[r' - r]? = some rd → locOk rd c = true) ∧
+      (∀ rd rest, rounds = rd :: rest →
+        batch.any (fun c => !locOk rd c && !ownGone rd c) = false →
+        queuedAt new r = groups rd (liveCalls rd batch)) := by
   induction rounds generalizing r batch st with
   | nil => simp [loop] at h
   | cons rd rest ih =>
     rcases loop_cons h with ⟨hany, rfl⟩ | ⟨hany, a, ha, hcase⟩
-    · refine ⟨[], by simp, ?_, ?_, ?_, ?_, ?_⟩
+    · refine ⟨[], by simp, ?_, ?_, ?_, ?_, ?_, ?_, ?_⟩
       · intro r' k cs hm; cases hm
       · intro c hs; exact absurd hs sent_nil
       · intro c r' _ hs; exact absurd hs sent_nil
       · intro c r' rd' m hs; exact absurd hs sent_nil
       · intro rd' rest' heq hno
         cases heq
+        obtain ⟨c, hc, hloc⟩ := List.any_eq_true.mp hany
+        have := List.any_eq_false.mp hno c hc
+        simp only [Bool.and_eq_true] at hloc
+        rw [hloc.1] at this; exact absurd rfl this
+      · intro c r' rd' hs; exact absurd hs sent_nil
+      · intro rd' rest' heq hno
+        cases heq
         rw [hany] at hno; cases hno
-    · rcases hcase with ⟨tail, rfl, htail, _⟩ | ⟨_, _, bo, imm, tail, htail, hrec⟩
+    · -- go on from the state after `findClients`, with the calls it kept
+      have hb' : ∀ c ∈ liveCalls rd batch, c ∈ b0 := fun c hc => hb c (liveCalls_sub hc)
+      have hl' : (afterLocate b0 rd batch st).res.length = b0.length := by simp [hl]
+      have hsubL : ∀ c ∈ liveCalls rd batch, c ∈ batch := fun c hc => liveCalls_sub hc
+      have hlocL : ∀ c ∈ liveCalls rd batch, locOk rd c = true := fun c hc => locOk_of_live hany hc
+      have hallok : batch.any (fun c => !locOk rd c) = false → liveCalls rd batch = batch :=
+        fun h => (liveCalls_of_all_ok h).1
+      revert ha hcase hb' hl' hsubL hlocL hallok
+      generalize afterLocate b0 rd batch st = st', hlv : liveCalls rd batch = live
+      intro ha hcase hb' hl' hsubL hlocL hallok
+      rcases hcase with ⟨tail, rfl, htail, _⟩ | ⟨_, _, bo, imm, tail, htail, hrec⟩
       · -- the loop ends after this round
-        refine ⟨queueEvents r rd batch ++ tail, by simp [List.append_assoc], ?_, ?_, ?_, ?_, ?_⟩
+        refine ⟨queueEvents r rd live ++ tail, by simp [List.append_assoc], ?_, ?_, ?_, ?_, ?_, ?_, ?_⟩
         · intro r' k cs hm
           rcases List.mem_append.mp hm with hm | hm
           · rw [queue_round_of_mem hm]; exact Nat.le_refl _
           · have := htail _ hm; simp [isSleepCut] at this
         · intro c hs
           rcases sent_append.mp hs with hs | hs
-          · exact (sent_queueEvents.mp hs).2
+          · exact hsubL c (sent_queueEvents.mp hs).2
           · exact absurd hs (not_sent_sleepCut htail)
         · intro c r' hle hs
           rcases sent_append.mp hs with hs | hs
@@ -144,20 +165,34 @@ theorem loop_events {b0 : List Nat} {rounds : List Round} {r : Nat} {batch : Lis
           · obtain ⟨rfl, hc⟩ := sent_queueEvents.mp hs
             simp only [Nat.sub_self, List.getElem?_cons_zero, Option.some.injEq] at hrd
             subst hrd
-            exact (round_ok_slot ha hb hl hc hm).1
+            exact (round_ok_slot ha hb' hl' hc hm).1
+          · exact absurd hs (not_sent_sleepCut htail)
+        · intro rd' rest' heq hno
+          cases heq
+          rw [queuedAt_append, queuedAt_queueEvents, queuedAt_nil_of_no_round, List.append_nil, hallok hno]
+          intro r' k cs hm
+          have := htail _ hm
+          simp [isSleepCut] at this
+        · intro c r' rd' hs hrd
+          rcases sent_append.mp hs with hs | hs
+          · obtain ⟨rfl, hc⟩ := sent_queueEvents.mp hs
+            simp only [Nat.sub_self, List.getElem?_cons_zero, Option.some.injEq] at hrd
+            subst hrd
+            exact hlocL c hc
           · exact absurd hs (not_sent_sleepCut htail)
         · intro rd' rest' heq _
           cases heq
-          rw [queuedAt_append, queuedAt_queueEvents, queuedAt_nil_of_no_round, List.append_nil]
+          rw [queuedAt_append, queuedAt_queueEvents, queuedAt_nil_of_no_round, List.append_nil, hlv]
           intro r' k cs hm
           have := htail _ hm
           simp [isSleepCut] at this
       · -- the loop goes on with the calls to retry
         obtain ⟨pre, post, hmem, _, hres, hret, _⟩ := round_flat ha
-        have hsub : ∀ c ∈ a.retries, c ∈ batch := by rw [hret]; exact retries_sub hmem
-        have hal : a.res.length = b0.length := by rw [hres]; simp [hl]
-        obtain ⟨new, hev, h1, h2, h3, h4, _⟩ := ih hrec (fun c hc => hb c (hsub c hc)) hal
-        refine ⟨queueEvents r rd batch ++ tail ++ new, by rw [hev]; simp [List.append_assoc], ?_, ?_, ?_, ?_, ?_⟩
+        have hsub : ∀ c ∈ a.retries, c ∈ live := by rw [hret]; exact retries_sub hmem
+        have hal : a.res.length = b0.length := by rw [hres]; simp [hl']
+        obtain ⟨new, hev, h1, h2, h3, h4, _, h6, _⟩ := ih hrec (fun c hc => hb' c (hsub c hc)) hal
+        refine ⟨queueEvents r rd live ++ tail ++ new, by rw [hev]; simp [List.append_assoc],
+          ?_, ?_, ?_, ?_, ?_, ?_, ?_⟩
         · intro r' k cs hm
           rcases List.mem_append.mp hm with hm | hm
           · rcases List.mem_append.mp hm with hm | hm
@@ -167,7 +202,7 @@ theorem loop_events {b0 : List Nat} {rounds : List Round} {r : Nat} {batch : Lis
         · intro c hs
           rcases sent_append.mp hs with hs | hs
           · rcases sent_append.mp hs with hs | hs
-            · exact (sent_queueEvents.mp hs).2
+            · exact hsubL c (sent_queueEvents.mp hs).2
             · exact absurd hs (not_sent_sleep htail)
           · obtain ⟨k, cs, hm, _⟩ := hs
             have := h1 r k cs hm; omega
@@ -195,8 +230,8 @@ theorem loop_events {b0 : List Nat} {rounds : List Round} {r : Nat} {batch : Lis
             · obtain ⟨rfl, hc⟩ := sent_queueEvents.mp hs
               simp only [Nat.sub_self, List.getElem?_cons_zero, Option.some.injEq] at hrd
               subst hrd
-              obtain ⟨hslot, hnr⟩ := round_ok_slot ha hb hl hc hm
-              rw [loop_frame hrec (fun c hc => hb c (hsub c hc)) (hb c hc) hnr]
+              obtain ⟨hslot, hnr⟩ := round_ok_slot ha hb' hl' hc hm
+              rw [loop_frame hrec (fun c hc => hb' c (hsub c hc)) (hb' c hc) hnr]
               exact hslot
             · exact absurd hs (not_sent_sleep htail)
           · have hle : r + 1 ≤ r' := by
@@ -205,10 +240,33 @@ theorem loop_events {b0 : List Nat} {rounds : List Round} {r : Nat} {batch : Lis
             have : r' - r = (r' - (r + 1)) + 1 := by omega
             rw [this, List.getElem?_cons_succ] at hrd
             exact h4 c r' rd' m hs hrd hm
+        · intro rd' rest' heq hno
+          cases heq
+          rw [queuedAt_append, queuedAt_append, queuedAt_queueEvents, queuedAt_nil_of_no_round,
+            queuedAt_nil_of_no_round, List.append_nil, List.append_nil, hallok hno]
+          · intro r' k cs hm heq
+            have := h1 r' k cs hm; omega
+          · intro r' k cs hm
+            have := htail _ hm
+            simp [isSleep] at this
+        · intro c r' rd' hs hrd
+          rcases sent_append.mp hs with hs | hs
+          · rcases sent_append.mp hs with hs | hs
+            · obtain ⟨rfl, hc⟩ := sent_queueEvents.mp hs
+              simp only [Nat.sub_self, List.getElem?_cons_zero, Option.some.injEq] at hrd
+              subst hrd
+              exact hlocL c hc
+            · exact absurd hs (not_sent_sleep htail)
+          · have hle : r + 1 ≤ r' := by
+              obtain ⟨k, cs, hm', _⟩ := hs
+              exact h1 r' k cs hm'
+            have : r' - r = (r' - (r + 1)) + 1 := by omega
+            rw [this, List.getElem?_cons_succ] at hrd
+            exact h6 c r' rd' hs hrd
         · intro rd' rest' heq _
           cases heq
           rw [queuedAt_append, queuedAt_append, queuedAt_queueEvents, queuedAt_nil_of_no_round,
-            queuedAt_nil_of_no_round, List.append_nil, List.append_nil]
+            queuedAt_nil_of_no_round, List.append_nil, List.append_nil, hlv]
           · intro r' k cs hm heq
             have := h1 r' k cs hm; omega
           · intro r' k cs hm
